@@ -71,6 +71,8 @@ pub fn handle(op: &str, a: &[&str]) -> Option<String> {
                 _ => return None,
             }))
         }
+        // the label pm1_impl reports for a requested B2 (prime-walk arm: the row's d1, d2 are unused)
+        ("s2_walk", [b2]) => Some(row(pm1::verif_hooks::vh_stage2_params(u64_of(b2)? as f64))),
         ("s2_threshold", []) => Some(label(pm1::verif_hooks_stage2::vh_multieval_threshold())),
         // full P-1 run; trailing annotations are ignored here
         ("s2_pm1", [n, b1, b2, ..]) => {
